@@ -54,6 +54,17 @@ pub fn v_u32_to_be_bytes(x: u32) -> (r: [u8; 4])
     ensures r@ == be32(x)
 { x.to_be_bytes() }
 
+//@trusted v_u64_to_le_bytes: u64::to_le_bytes is the little-endian byte sequence (be64 reversed)
+#[verifier::external_body]
+pub fn v_u64_to_le_bytes(x: u64) -> (r: [u8; 8])
+    ensures r@ == be64(x).reverse()
+{ x.to_le_bytes() }
+//@trusted v_u32_to_le_bytes: u32::to_le_bytes is the little-endian byte sequence (be32 reversed)
+#[verifier::external_body]
+pub fn v_u32_to_le_bytes(x: u32) -> (r: [u8; 4])
+    ensures r@ == be32(x).reverse()
+{ x.to_le_bytes() }
+
 //@trusted v_vec_len_bound: a Vec<u8> never holds more than isize::MAX bytes (std allocation limit)
 #[verifier::external_body]
 pub fn v_blob_len(b: &Vec<u8>) -> (r: usize)
@@ -373,6 +384,58 @@ pub proof fn lemma_okey_prefix_free(a: PropertyValue, b: PropertyValue)
 //@| assert(b@.take(b@.len() as int) =~= b@);
 //@| assert(out@ =~= okey(*v));
 //@end
+
+// C27.index_key.format — the composite key an index stores is the index id (big endian), the value's ordered key and
+// the node id (big endian): entries of one index are grouped by value in value order, and within one value by node id.
+//@extract nervusdb-storage/src/index/ordered_key.rs encode_index_key ret out
+//@| ensures out@ == be32(index_id) + okey(*v) + be64(internal_node_id),
+//@lebytes index_id:u32 internal_node_id:u64
+//@proof before 1 "=out"
+//@| assert(out@ =~= be32(index_id) + okey(*v) + be64(internal_node_id));
+//@end
+
+/// a strict order between two keys neither of which is a prefix of the other survives any suffixes
+pub proof fn lemma_lex_append(a: Seq<u8>, b: Seq<u8>, s: Seq<u8>, t: Seq<u8>)
+    requires lex_lt(a, b), !is_prefix(a, b),
+    ensures lex_lt(a + s, b + t),
+    decreases a.len()
+{
+    reveal_with_fuel(lex_lt, 2);
+    if a.len() == 0 { assert(is_prefix(a, b)) by { assert(b.subrange(0, 0) =~= a); } }
+    else if b.len() == 0 { }
+    else if a[0] < b[0] { assert((a + s)[0] == a[0] && (b + t)[0] == b[0]); }
+    else {
+        assert(a[0] == b[0]);
+        assert(!is_prefix(a.skip(1), b.skip(1))) by {
+            if is_prefix(a.skip(1), b.skip(1)) {
+                assert(b.subrange(0, a.len() as int) =~= a) by {
+                    assert forall|i: int| 0 <= i < a.len() implies b.subrange(0, a.len() as int)[i] == a[i] by {
+                        if i > 0 { assert(b.skip(1).subrange(0, a.len() - 1)[i - 1] == a.skip(1)[i - 1]); }
+                    }
+                }
+            }
+        }
+        lemma_lex_append(a.skip(1), b.skip(1), s, t);
+        assert((a + s).skip(1) =~= a.skip(1) + s);
+        assert((b + t).skip(1) =~= b.skip(1) + t);
+        assert((a + s)[0] == a[0] && (b + t)[0] == b[0]);
+    }
+}
+/// C27.index_key.order — in one index, entries of a smaller value come before entries of a larger value whatever the
+/// node ids, given the value-level order okey(a) < okey(b) (the C27 obligations) and that neither key is a prefix of the other
+pub proof fn lemma_index_key_order(idx: u32, a: PropertyValue, b: PropertyValue, ida: u64, idb: u64)
+    requires in_scope(a), in_scope(b), lex_lt(okey(a), okey(b)), okey(a) != okey(b),
+    ensures lex_lt(be32(idx) + okey(a) + be64(ida), be32(idx) + okey(b) + be64(idb)),
+{
+    if is_prefix(okey(a), okey(b)) {
+        lemma_okey_prefix_free(a, b);
+        assert(okey(b).subrange(0, okey(a).len() as int) =~= okey(b));
+    }
+    lemma_lex_append(okey(a), okey(b), be64(ida), be64(idb));
+    lemma_lex_prepend(be32(idx), okey(a) + be64(ida), okey(b) + be64(idb));
+    assert(be32(idx) + okey(a) + be64(ida) =~= be32(idx) + (okey(a) + be64(ida)));
+    assert(be32(idx) + okey(b) + be64(idb) =~= be32(idx) + (okey(b) + be64(idb)));
+}
 
 } // verus!
 fn main() {}
